@@ -125,8 +125,11 @@ func (h *Handler6) spoofLoop(dstAddr packet.Addr) {
 			nTimes++
 		}
 
+		h.Lock()
+		wakeup := h.closeChan // replaced by ProcessPacket on every RA
+		h.Unlock()
 		select {
-		case <-h.closeChan:
+		case <-wakeup:
 			// icmp6 spoof goroutines wait on this channel to receive
 			// notifications of new Router Advertisements send by the lan router.
 			//
